@@ -368,14 +368,21 @@ def main():
             'RPC, threads), per-function CFG with dominators, finite '
             'state-domain abstract interpreter folded from '
             'workflow/states.py (states, booleans, small integers), '
-            'decision-table evaluation, query-shape and alias analyses',
+            'decision-table evaluation, query-shape and alias analyses; '
+            'functions are alpha-normalised against a reference spelling '
+            '(mstatic/localnames.json) before any rule runs, so a renamed '
+            'local, a test value given a name or a mirrored == is not '
+            'reported',
         }],
         'checks': checks,
         'notes': 'Static analysis only (see DESIGN.md). Exit 0 = all rule '
                  'instances discharged (KNOWN-FINDING lines for entries of '
                  'known_findings.json), exit 1 + VIOLATION line = new '
                  'violation, exit 2 + ANALYSIS-ERROR = anchor lost / floor '
-                 'not met / internal error.',
+                 'not met / internal error. Each property claims the '
+                 'structural necessary conditions listed in its level text; '
+                 'what is not decided is in DESIGN.md section 5. Known '
+                 'findings: F5, F6, F9, F18, F22 (known_findings.json).',
         'not_applicable': na,
     }
     with open(os.path.join(HERE, 'MANIFEST.json'), 'w') as fh:
